@@ -140,6 +140,7 @@ static void aggr_handler(const unsigned char *req, size_t n, vbuf *resp, void *u
 		rp_sig_body(&sig, &body);
 	}
 	rp_aggr_resp_payload(&payload, e.version, r.req_id, 1, 0, NULL, body.p, body.n);
+	if (r.has_conf_req && r.version == 2) rp_aggr_conf_payload(&payload, 17, 1, 400, 1024, "ksi+tcp://parent.c19.test:1");   /* request and configuration request in one PDU */
 	rp_wrap_response(resp, &e, payload.p, payload.n);
 	vb_free(&body); vb_free(&payload);
 	rp_req_free(&r);
@@ -472,6 +473,23 @@ static void su_sig(int form) {
 	G.ctx = ku_ctx();
 	sig_bytes(form, &G.in);
 	G.sig = parse_fixture(&G.in);
+}
+/* the same signature object after it has already answered the request once without a fault (objects that cache what they
+ * build on first use are then in another state) */
+static void su_sig_primed(int form) {
+	KSI_HashChainLinkIdentityList *l = NULL;
+	KSI_DataHash *ph = NULL;
+	KSI_Utf8String *ps = NULL;
+	KSI_LIST(KSI_Utf8String) *refs = NULL, *urls = NULL;
+	time_t when = 0;
+	unsigned char *raw = NULL;
+	size_t n = 0;
+	su_sig(form);
+	if (KSI_Signature_getAggregationHashChainIdentity(G.sig, &l) != KSI_OK) vf_harness_error("priming: identity");
+	KSI_HashChainLinkIdentityList_free(l);
+	if (KSI_Signature_getPublicationInfo(G.sig, &ph, &ps, &when, &refs, &urls) == KSI_OK) { KSI_DataHash_free(ph); KSI_Utf8String_free(ps); KSI_Utf8StringList_free(refs); KSI_Utf8StringList_free(urls); }
+	if (KSI_Signature_serialize(G.sig, &raw, &n) != KSI_OK) vf_harness_error("priming: serialize");
+	KSI_free(raw);
 }
 static int run_serialize(int k) {
 	unsigned char *raw = NULL;
@@ -982,6 +1000,8 @@ static int run_async(int k) {
 	KSI_AsyncHandle *hd = NULL, *mine = NULL, *out = NULL;
 	KSI_DataHash *h = NULL;
 	KSI_Signature *s = NULL;
+	KSI_AggregationReq *mreq = NULL;
+	KSI_Config *mcfg = NULL;
 	unsigned char imp[RH_MAX_IMPRINT];
 	size_t il = ref_fake_imprint(RH_SHA256, 71, imp);
 	int res, i, state = 0, err = 0;
@@ -1003,7 +1023,18 @@ static int run_async(int k) {
 		}
 	}
 	if (k & 8) CK(KSI_AsyncExtendingHandle_new(G.ctx, G.sig, NULL, &hd));
-	else {
+	else if (k & 32) {
+		/* one request that asks for a signature AND for the server's configuration */
+		CK(KSI_DataHash_fromImprint(G.ctx, imp, il, &h));
+		CK(KSI_AggregationReq_new(G.ctx, &mreq));
+		CK(KSI_AggregationReq_setRequestHash(mreq, h));
+		h = NULL;
+		CK(KSI_Config_new(G.ctx, &mcfg));
+		CK(KSI_AggregationReq_setConfig(mreq, mcfg));
+		mcfg = NULL;
+		CK(KSI_AsyncAggregationHandle_new(G.ctx, mreq, &hd));
+		mreq = NULL;
+	} else {
 		CK(KSI_DataHash_fromImprint(G.ctx, imp, il, &h));
 		CK(KSI_AsyncSigningHandle_new(G.ctx, h, 0, &hd));
 		h = NULL;                                /* owned by the handle after a successful call */
@@ -1023,6 +1054,11 @@ static int run_async(int k) {
 	CK(KSI_AsyncHandle_getError(out, &err));
 	if (state == KSI_ASYNC_STATE_RESPONSE_RECEIVED) CK(KSI_AsyncHandle_getSignature(out, &s));
 	else { res = err ? err : KSI_UNKNOWN_ERROR; if (is_timeout_err(err)) g_async_timeout = err; }
+	if ((k & 16) && svc != G.svc) {
+		/* releasing the handle and the service is part of what runs under the fault (release paths allocate too: recycle lists) */
+		KSI_AsyncHandle_free(out); out = NULL;
+		KSI_AsyncService_free(svc); svc = NULL;
+	}
 done:
 	fault_off();
 	if (res == KSI_OK) out_sig(s);
@@ -1031,6 +1067,8 @@ done:
 	KSI_AsyncHandle_free(out);
 	KSI_AsyncHandle_free(hd);
 	KSI_DataHash_free(h);
+	KSI_AggregationReq_free(mreq);
+	KSI_Config_free(mcfg);
 	if (svc != G.svc) KSI_AsyncService_free(svc);
 	return res;
 }
@@ -1353,6 +1391,10 @@ static const op_t OPS[] = {
 	{"sig-clone-rfc3161", su_sig, run_clone, 4},
 	{"sig-identity", su_sig, run_identity, 5},
 	{"sig-getters", su_sig, run_sig_getters, 2},
+	{"sig-identity-second-request", su_sig_primed, run_identity, 5},
+	{"sig-getters-second-request", su_sig_primed, run_sig_getters, 2},
+	{"sig-serialize-second-request", su_sig_primed, run_serialize, 3},
+	{"sig-clone-second-request", su_sig_primed, run_clone, 5},
 	{"aggr-pdu-parse", su_aggr_pdu, run_aggr_pdu, 0},
 	{"aggr-resp-to-signature", su_aggr_pdu, run_aggr_pdu, 1},
 	{"ext-pdu-parse", su_ext_pdu, run_ext_pdu, 0},
@@ -1387,6 +1429,12 @@ static const op_t OPS[] = {
 	{"async-extend-tcp", su_async, run_async, 8},
 	{"async-extend-http", su_async, run_async, 9},
 	{"ha-extend-2-endpoints", su_async, run_async, 12},
+	{"async-sign-with-config-request-tcp", su_async, run_async, 32},
+	{"async-sign-with-config-request-http", su_async, run_async, 33},
+	{"async-sign-tcp-release-under-fault", su_async, run_async, 16},
+	{"async-sign-http-release-under-fault", su_async, run_async, 17},
+	{"ha-sign-2-endpoints-release-under-fault", su_async, run_async, 20},
+	{"ha-extend-2-endpoints-release-under-fault", su_async, run_async, 28},
 	{"async-sign-tcp-3-requests", su_async, run_async_multi, 0},
 	{"async-sign-http-3-requests", su_async, run_async_multi, 1},
 	{"pubfile-parse", su_pubfile, run_pubfile, 0},
